@@ -37,3 +37,36 @@ func VerifT00Concrete() {
 	nd.Assert((err != nil) != (len(prog) > 0), "xor (expected to FAIL)")
 	nd.Reach("done")
 }
+
+// VerifT00Arith: identities over the symbolic division / remainder / shift
+// operators (must all hold for every value).
+func VerifT00Arith() {
+	x := int16(nd.Int32("x")) // 16-bit: the division identities are hard for bit-blasting at 64 bits
+	u := uint16(nd.Uint32("u"))
+	c := nd.Byte("c")
+	nd.Assert(x/32*32+x%32 == x, "signed div/rem identity")
+	nd.Assert(x/-7*-7+x%-7 == x, "signed div/rem identity, negative divisor")
+	nd.Assert(u/10*10+u%10 == u, "unsigned div/rem identity")
+	nd.Assert(nd.Implies(x >= 0, x%32 >= 0 && x%32 < 32), "remainder range")
+	nd.Assert(nd.Implies(x < 0, x%32 <= 0 && x%32 > -32), "remainder sign follows the dividend")
+	var one uint32 = 1
+	nd.Assert(one<<(c%32) != 0, "shift by a symbolic in-range amount")
+	nd.Assert(one<<c == 0 || c < 32, "shift by >= width gives 0")
+	nd.Assert((u>>c)<<c <= u || c >= 16, "shift right then left")
+	var set [8]uint32
+	set['.'/32] |= 1 << ('.' % 32)
+	in := set[c/32]&(1<<(c%32)) != 0
+	nd.Assert(in == (c == '.'), "ascii set membership")
+	nd.Reach("done")
+}
+
+// VerifT00ArithBug: the solver must find the inputs and they must replay natively.
+func VerifT00ArithBug() {
+	x := nd.Int("x")
+	c := nd.Byte("c")
+	nd.Assume(x > -1000 && x < 1000)
+	nd.Assert(x/7 != -13 || x%7 != -3, "x = -94 expected")
+	var one uint32 = 1
+	nd.Assert(one<<c != 1<<17, "c = 17 expected")
+	nd.Reach("done")
+}
